@@ -630,7 +630,13 @@ func c13Check(ctx *vfCtx, c c13Case) {
 	// ---- what the case is (computed from the Case alone) ----
 	var bodyVal jv
 	bodyClean := true
-	if c.HasBody {
+	signedBadUTF8 := c.HasBody && !utf8.Valid(c.Body)
+	if signedBadUTF8 {
+		// the origin itself signs and sends a body that is not UTF-8 (Go's JSON scanner lets such
+		// bytes through inside strings): the receiver must refuse it whatever the signature says
+		ctx.Class("body/signed-with-invalid-utf8")
+		bodyClean = false
+	} else if c.HasBody {
 		v, fl, err := jparse(c.Body)
 		if err != nil || fl.DupKeys || fl.LoneSurrogate {
 			ctx.Class("build/body-not-well-formed(unjudged)")
@@ -682,7 +688,7 @@ func c13Check(ctx *vfCtx, c c13Case) {
 		ctx.Class("receiver/single-name")
 	}
 	uriClean := c13ValidURI(c.URI)
-	clean := uriClean && c13IsToken(method) && method != "CONNECT" && c13ValidServerName(c.Origin) &&
+	clean := !signedBadUTF8 && uriClean && c13IsToken(method) && method != "CONNECT" && c13ValidServerName(c.Origin) &&
 		c13ValidServerName(c.Dest) && c13ValidKeyID(c.KeyID) && (c.Key2ID == "" || c13ValidKeyID(c.Key2ID))
 
 	// ---- build, sign, emit ----
@@ -753,7 +759,13 @@ func c13Check(ctx *vfCtx, c c13Case) {
 		ctx.Fail("C13/wire-differs-from-signed/request-line", "request line on the wire is %q %q, signed %q %q", w.Method, w.Target, method, c.URI)
 		return
 	}
-	if c.HasBody {
+	if signedBadUTF8 {
+		if utf8.Valid(w.Body) {
+			ctx.Class("build/invalid-utf8-body-repaired-by-sender(unjudged)")
+			ctx.Unjudged("sender replaced the invalid UTF-8 before signing")
+			return
+		}
+	} else if c.HasBody {
 		wv, wfl, werr := jparse(w.Body)
 		if werr != nil || wfl.DupKeys || !jequal(wv, bodyVal) {
 			ctx.Fail("C13/wire-differs-from-signed/body", "body on the wire %q is not the JSON value handed to SetContent %q", w.Body, []byte(c.Body))
@@ -810,6 +822,9 @@ func c13Check(ctx *vfCtx, c c13Case) {
 
 	// ---- expectation: reasons from the configuration ----
 	var rs c13Reasons
+	if signedBadUTF8 {
+		rs.Hard("body-not-utf8/as-signed")
+	}
 	if !c13ValidServerName(c.Origin) {
 		rs.Hard("invalid-origin")
 	}
@@ -885,6 +900,8 @@ func c13Check(ctx *vfCtx, c c13Case) {
 		switch {
 		case len(nb) == 0 && !c.HasBody, bytes.Equal(nb, w.Body):
 			kind = "none"
+		case signedBadUTF8:
+			rs.Soft("body-tampered-where-signed-body-was-not-utf8")
 		case len(nb) == 0:
 			rs.Hard("body-removed")
 		case !c.HasBody:
@@ -1094,7 +1111,9 @@ func c13Check(ctx *vfCtx, c c13Case) {
 		if string(got.Destination()) != c.Dest {
 			ctx.Fail("C13/accepted-wrong-fields/destination", "accepted request reports destination %q, signed %q", got.Destination(), c.Dest)
 		}
-		if c.HasBody {
+		if signedBadUTF8 {
+			// already a violation (hard reason); nothing to compare the content with
+		} else if c.HasBody {
 			gv, gfl, gerr := jparse(got.Content())
 			if gerr != nil || gfl.DupKeys || !jequal(gv, bodyVal) {
 				ctx.Fail("C13/accepted-wrong-fields/content", "accepted request reports content %q, signed %q", got.Content(), []byte(c.Body))
@@ -1515,7 +1534,11 @@ func c13GenRoundTrip(t *rapid.T) c13Case {
 			bv = jobj("k", jstr("v"))
 			c.Body = vfBytes(`{"k":"v"}`)
 		}
-		switch rapid.IntRange(0, 5).Draw(t, "badbody") {
+		switch rapid.IntRange(0, 7).Draw(t, "badbody") {
+		case 6, 7: // the ORIGIN signs and sends a body that is not UTF-8
+			bad := rapid.SampledFrom([]string{"a\xffb", "\xc3", "a\xed\xa0\x80", "\xc0\xaf", "\xf8\x88\x80\x80\x80", "é\x80"}).Draw(t, "signedbad")
+			c.Body = vfBytes(rapid.SampledFrom([]string{`{"k":"` + bad + `"}`, `{"` + bad + `":1}`, `["` + bad + `"]`, `"` + bad + `"`}).Draw(t, "signedbadform"))
+			c.Verifier = rapid.SampledFrom([]string{"keyring", "keyring", "table"}).Draw(t, "signedbadver")
 		case 0, 1: // a byte sequence that lenient decoders read as U+FFFD, where U+FFFD was signed
 			if bv.K != 'o' {
 				bv = jobj("v", bv)
